@@ -1174,6 +1174,18 @@ impl Gen {
                         self.step(format!("cev 1 ord {id}"));
                     }
                     96..=97 if self.sys.cfg.auth == "custom" => self.step("auth 0".into()),
+                    96..=97 if self.sys.cfg.auth == "check" && !self.sys.clients[0].panicked => {
+                        // the handshake arrives and the connection is gone before the server looks at it
+                        if self.sys.clients[0].server_side.is_none() { self.step("connect 0".into()); }
+                        self.step("cframe 0".into());
+                        while !self.sys.clients[0].c2s[1].is_empty() { self.step("deliver 0 c2s 1 0".into()); }
+                        self.step("disconnect 0".into());
+                        self.drain(out);
+                        self.step("sframe tick=1".into());
+                        // the client sees the end of its session (with the default protocol check
+                        // this is where known finding F13 panics the client app)
+                        self.step("cframe 0".into());
+                    }
                     _ => {
                         let id = self.v();
                         self.step(format!("sev ord {id} b"));
@@ -1591,6 +1603,18 @@ impl Gen {
                 92..=93 if self.sys.cfg.auth == "custom" => {
                     let c = self.rng.below(nclients as u64);
                     self.step(format!("auth {c}"));
+                }
+                92..=93 if profile == "sys_auth" && self.sys.cfg.auth == "check" => {
+                    // a client whose handshake arrives and whose connection is gone before the server's frame
+                    let c = self.rng.below(nclients as u64) as usize;
+                    if !self.sys.clients[c].panicked {
+                        if self.sys.clients[c].server_side.is_none() { self.step(format!("connect {c}")); }
+                        self.step(format!("cframe {c}"));
+                        while !self.sys.clients[c].c2s[1].is_empty() { self.step(format!("deliver {c} c2s 1 0")); }
+                        self.step(format!("disconnect {c}"));
+                        self.step("sframe tick=1".into());
+                        self.step(format!("cframe {c}"));
+                    }
                 }
                 94 => self.step("sframe tick=0 ms=500".into()),
                 95..=96 if profile == "sys_split" => {
